@@ -3,7 +3,8 @@ import ScVerif.C19.Electric
 /-! Driver handler for C19 (stateful: one electric model per driver process, `reset` starts afresh).
 
 ```
-reset
+reset | config <active mode> <mode;mode;…|->      (initial state: NewModel with WithInitialMode / WithInitialActiveMode)
+find <id>
 create <mode> <cands>      add <mode>        update <mode> <mask>     delete <id> <0|1>
 setactive <mode>           change <id> <now> clear <now>
 s.create <mode> <cands>    s.update <mode> <mask>   s.delete <id> <0|1>   s.change <id> <now>   s.clear <now>
@@ -82,6 +83,7 @@ def parseOp? : List String → Option Op
   | ["setactive", m] => do pure (.setActive (← parseMode? m))
   | ["change", i, t] => do pure (.changeActive (← parseId? i) (← parseNat? t))
   | ["clear", t] => do pure (.clear (← parseNat? t))
+  | ["find", i] => do pure (.findMode (← parseId? i))
   | ["s.create", m, c] => do pure (.sCreate (← parseMode? m) (← parseCands? c))
   | ["s.update", m, k] => do pure (.sUpdate (← parseMode? m) (← parseMask? k))
   | ["s.delete", i, a] => do pure (.sDelete (← parseId? i) (← parseBool? a))
@@ -101,6 +103,11 @@ def showSt (s : St) : String :=
 def handleS (s : St) (toks : List String) : St × String :=
   match toks with
   | ["reset"] => (St.init, "ok")
+  | ["config", a, ms] =>
+    -- NewModel(WithInitialMode(ms…), WithInitialActiveMode(a))
+    match parseMode? a, (if ms = "-" then some [] else (ms.splitOn ";").mapM parseMode?) with
+    | some a, some ms => (St.config ms a, "ok " ++ showSt (St.config ms a))
+    | _, _ => (s, "!bad-op")
   | _ =>
     match parseOp? toks with
     | some op =>
